@@ -193,7 +193,11 @@ func CloneNode(node ast.Node) ast.Node {
 		return imp
 
 	case *ast.Label:
-		return ast.NewLabel(ClonePosition(n.Position), CloneExpression(n.Ident).(*ast.Identifier), CloneNode(n.Statement))
+		var statement ast.Node
+		if n.Statement != nil {
+			statement = CloneNode(n.Statement)
+		}
+		return ast.NewLabel(ClonePosition(n.Position), CloneExpression(n.Ident).(*ast.Identifier), statement)
 
 	case *ast.Package:
 		var nn = make([]ast.Node, 0, len(n.Declarations))
